@@ -64,14 +64,15 @@ def rBindParameterEnd : LexRule :=
 def rRegex : LexRule := { name := "Regex", bytes := regexBytes, plus := true, elide := false, action := .none }
 def rRegexEnd : LexRule := { name := "RegexEnd", bytes := [47], plus := false, elide := false, action := .pop }
 
-/-- `lexer.Rules{…}` of parser.go with `Include("Common")` expanded, over the documented classes -/
+/-- `lexer.Rules{…}` of parser.go with `Include("Common")` expanded, over the documented classes: the states the
+    lexer can be in (reachable from `Root` through `Push`).  `Common` exists in the source only to be included;
+    nothing pushes it, so it is no state of the machine and the translator leaves it out. -/
 def docRules : LexRules := [
   ("Root", [rSegment]),
   ("Segment", [rIdent, rSpace, rOptional, rBind, rSegment]),
   ("Bind", [rIdent, rSpace, rBindParameter, rBind, rBindEnd, rSegment]),
   ("BindParameter", [rIdent, rSpace, rRegexValue, rBindParameterEnd]),
-  ("BindParameterRegexValue", [rRegex, rRegexEnd]),
-  ("Common", [rIdent, rSpace])]
+  ("BindParameterRegexValue", [rRegex, rRegexEnd])]
 
 /-- a non-empty string over the Ident class -/
 def IdentText (s : Bytes) : Prop := s ≠ [] ∧ ∀ c ∈ s, c ∈ identBytes
